@@ -164,13 +164,15 @@ pub(crate) fn sanitize_id_to_filename(id: &str) -> String {
 pub(crate) fn filename_without_workdir<'a>(filename: &'a str, config: &Config) -> &'a str {
     //MAYBE TODO: use proper PathBuf, this probably won't work on Windows
     if let Some(workdir) = config.workdir().map(|x| x.to_str().expect("valid utf-8")) {
-        if filename.starts_with(workdir) {
-            let filename = &filename[workdir.len()..];
-            if filename.starts_with(&['/', '\\']) {
-                return &filename[1..];
-            } else {
-                return filename;
+        //an empty workdir (a store in the current directory) has nothing to strip
+        if !workdir.is_empty() && filename.starts_with(workdir) {
+            let remainder = &filename[workdir.len()..];
+            if remainder.starts_with(&['/', '\\']) {
+                return &remainder[1..];
+            } else if workdir.ends_with(&['/', '\\']) {
+                return remainder;
             }
+            //otherwise the workdir is only a prefix of a longer name (a sibling directory): the file is not in it
         }
     }
     filename
